@@ -157,3 +157,34 @@ def run(chk):
   if seen != [True, True, False, True, False]:
     chk.violation('C09:temp_flip_flag:nested', f'flag values inside / after nested temp_flip_flag blocks {seen}, expected [True, True, False, True, False] '
                                                '(with the separator fix requested, paths (ab, c) and (a, bc) must not share a key)', {})
+  # ---- the keys a program draws do not depend on what the process ran before: an nn.jit-ed helper whose number of draws depends on the
+  # input shape, then a draw after it - applied to a (4,)-input in a fresh class, and after the same class was applied to a (2,)-input
+  import flax.linen as _nn
+
+  def make_cls():
+    class ShapeDraws(_nn.Module):
+      @_nn.jit
+      def helper(self, x):
+        acc = _jnp.zeros((), _jnp.uint32)
+        for _ in range(x.shape[0]):      # a Python loop over a static shape: the number of draws is not part of the module fingerprint
+          acc = acc + jax.random.key_data(self.make_rng('drop')).reshape(-1)[0]
+        return acc
+
+      @_nn.compact
+      def __call__(self, x):
+        inside = self.helper(x)
+        return inside, jax.random.key_data(self.make_rng('drop'))
+    return ShapeDraws
+  chk.count('C09:linen:jit-helper:history-independent-keys')
+  try:
+    rng = {'drop': jax.random.key(5)}
+    fresh = make_cls()().apply({}, _jnp.ones((4,)), rngs=rng)
+    cls2 = make_cls()
+    cls2().apply({}, _jnp.ones((2,)), rngs=rng)
+    later = cls2().apply({}, _jnp.ones((4,)), rngs=rng)
+    if int(fresh[0]) != int(later[0]) or kdata(jax.random.wrap_key_data(fresh[1])) != kdata(jax.random.wrap_key_data(later[1])):
+      chk.violation('C09:linen:jit-helper:history-independent-keys:stale-counter-delta',
+                    'the key drawn after an nn.jit-ed helper differs between a fresh class and one that was applied to an input of another shape before '
+                    '(same program, same seeds): the rng-counter delta of the first trace is replayed for the retrace', {})
+  except Exception as e:
+    chk.violation('C09:linen:jit-helper:history-independent-keys', f'raised {type(e).__name__}: {str(e)[:160]}', {})
